@@ -172,6 +172,31 @@ def table_cases(name, tier):
                 f = next(x for x in rest if x not in trio)
                 grp = ["or", ["or", P(W[trio[0]]), P(W[trio[1]])], P(W[trio[2]])]
                 yield {"a": ["or", ["and", grp, P(W[e])], P(W[s_])], "b": ["or", P(W[s_]), P(W[f])]}
+    elif name == "factored-pairs":
+        # (P and X1) | (P and X2) [| picks the conjunctive form P and (X1 or X2)], with X1, X2 on one variable V that is
+        # then excluded / kept by only(): a disjunction child that becomes universal or empty inside a conjunction
+        W = _WIDE_ATOMS
+        A = lambda var, op, val: {"var": var, "op": op, "val": val, "rev": False, "style": 0}  # noqa: E731
+        xs = [
+            (A("sys_platform", "==", "win32"), A("sys_platform", "==", "darwin")),
+            (A("extra", "==", "bar"), A("extra", "==", "baz")),
+            (A("python_full_version", ">=", "3.9.1"), A("python_full_version", "<", "3.9.1")),
+            (A("os_name", "==", "posix"), A("os_name", "!=", "posix")),
+            (A("platform_machine", "in", "x86_64 AMD64"), A("platform_machine", "==", "x86")),
+        ]
+        for (x1, x2), i in itertools.product(xs, range(len(W))):
+            p = W[i]
+            if p["var"] == x1["var"]:
+                continue
+            names = [x1["var"]]
+            yield {"a": ["and", P(p), P(x1)], "b": ["and", P(p), P(x2)], "names": names}
+            yield {"a": ["or", P(p), P(x1)], "b": ["or", P(p), P(x2)], "names": names}
+            for j in range(len(W)) if tier != "quick" else [(i + 1) % len(W), (i + 3) % len(W)]:
+                q = W[j]
+                if j == i or q["var"] in (x1["var"], p["var"]):
+                    continue
+                yield {"a": ["and", ["and", P(p), P(q)], P(x1)], "b": ["and", ["and", P(p), P(q)], P(x2)], "names": names}
+                yield {"a": ["and", P(p), P(x1)], "b": ["and", P(q), P(x2)], "names": [p["var"], q["var"]]}
     elif name == "mixed-py-triples":
         # x or (x and y) or x  shapes and merged operands meeting a third atom
         A = [a for a in py_atoms("quick") if not a["rev"]][:: 4 if tier == "quick" else 2]
@@ -224,7 +249,7 @@ def tasks(tier, seed):
     shards = 48 if tier == "quick" else 192
     # slow, straggler-prone shards first
     t = [(MOD, "hyp", (n // shards, seed * 1_000_003 + i, tier)) for i in range(shards)]
-    for name, nsh in (("py-pairs", 32 if tier == "quick" else 64), ("rel-pairs", 4), ("str-triples", 32), ("extra-triples", 16), ("mixed-py-triples", 16), ("wide-with-neutral", 16), ("str-group-pairs", 8), ("consensus-py", 16), ("shared-child-unions", 16)):
+    for name, nsh in (("py-pairs", 32 if tier == "quick" else 64), ("rel-pairs", 4), ("str-triples", 32), ("extra-triples", 16), ("mixed-py-triples", 16), ("wide-with-neutral", 16), ("str-group-pairs", 8), ("consensus-py", 16), ("shared-child-unions", 16), ("factored-pairs", 4)):
         for sh in range(nsh):
             t.append((MOD, "tables", (name, tier, sh, nsh)))
     return t
